@@ -97,6 +97,10 @@ def unary_ops():
                     (lambda k: lambda r: REFUSE if r.n is None else Ref(None, [[v[k]] for v in r.vals], r.base, " per month"))(k)))
         ops.append(("get_month%d" % k, (lambda k: lambda f: f.get_month(k))(k),
                     (lambda k: lambda r: REFUSE if r.n is None else Ref(None, [[v[k]] for v in r.vals], r.base, " per month"))(k)))
+    # the same single-month extraction with a numpy integer key (what np.argmax / np.arange / a loop over an array hand over)
+    import numpy as _np
+    ops.append(("index_np1", lambda f: f[_np.int64(0)],
+                lambda r: REFUSE if r.n is None else Ref(None, [[v[0]] for v in r.vals], r.base, " per month")))
     ops.append(("first_month", lambda f: f.get_first_month(),
                 lambda r: REFUSE if r.n is None else Ref(None, [[v[0]] for v in r.vals], r.base, " per month")))
     ops.append(("slice1", lambda f: f[0:1], lambda r: REFUSE if r.n is None else Ref(1, [v[0:1] for v in r.vals], r.base, r.form)))
